@@ -88,5 +88,9 @@ def main():
     return 0
 
 
+import atexit, shutil as _sh
+atexit.register(lambda: _sh.rmtree(os.path.join(VERIF, "replays", "_scratch"), ignore_errors=True))
+
+
 if __name__ == "__main__":
     sys.exit(main())
